@@ -21,6 +21,12 @@ def exception_origin(e):
     """'code' if the innermost non-library frame of the traceback is in the code
     under test (TOLA_SRC), 'harness' if it is in the harness / vlib"""
     import traceback as tb
+    # the code under test asked a harness fake (model path / file / texel ...) for a member it
+    # does not model: the harness is incomplete, not the code wrong
+    if isinstance(e, AttributeError) and getattr(e, "obj", None) is not None:
+        mod = type(e.obj).__module__ or ""
+        if mod in ("replay_harness", "h", "__main__") or mod.startswith("vlib") or mod.startswith("h_"):
+            return "harness"
     src = os.path.realpath(os.environ.get("TOLA_SRC", "/repo/src"))
     frames = tb.extract_tb(e.__traceback__)
     for fr in reversed(frames):
